@@ -344,7 +344,7 @@ def main(argv):
     try:
         mod = importlib.import_module("mc.props." + prop_id.lower())
         mod.run(ctx)
-        if ctx.thorough and os.environ.get("VERIF_WARM", "1") != "0":
+        if ctx.thorough and os.environ.get("VERIF_WARM", "1") != "0" and getattr(mod, "WARM_REGIME", True):
             # second regime: the same exploration on databases that have already served a broad pack
             # of foreign requests (mc/worlds.py: warm_up); coverage counters are the sum of both passes
             from . import worlds
